@@ -453,23 +453,53 @@ def run(R, P="C09"):
 
     # ---- ASYNC-CALL
     ac = repo.fn("decorators.async_call")
-    arms_ = []          # [(test source or None for the default, [return sources])]
-    stmts = [s_ for s_ in ac.node.body if not (isinstance(s_, ast.Expr) and isinstance(s_.value, ast.Constant))]
+    # decided as a table: for every combination of "is pure", "has .asynq", "has .async" the function is followed through its flow
+    # graph along the decided edges; what it returns there is compared with the dispatch order pure > .asynq > .async > plain
+    import itertools as _it
 
-    def walk(stmts):
-        for s_ in stmts:
-            if isinstance(s_, ast.If):
-                arms_.append((q.src(s_.test), [q.src(n.value) for st in s_.body for n in ast.walk(st) if isinstance(n, ast.Return)]))
-                if s_.orelse:
-                    walk(s_.orelse)
-            elif isinstance(s_, ast.Return):
-                arms_.append((None, [q.src(s_.value)]))
-    walk(stmts)
-    want_arms = [("is_pure_async_fn(fn)", ["fn(*args, **kwargs)"]), ("hasattr(fn, 'asynq')", ["fn.asynq(*args, **kwargs)"]),
-                 ("hasattr(fn, 'async')", ["getattr(fn, 'async')(*args, **kwargs)"]), (None, ["futures.ConstFuture(fn(*args, **kwargs))"])]
-    R.check(arms_ == want_arms, P + ".ASYNC-CALL", ac.qualname, R.site(ac),
-            "async_call dispatches pure / .asynq / .async / plain, in this order, each with the same (*args, **kwargs)",
-            "async_call's arms are %s" % arms_)
+    def dispatch_table(fi, preds, expected):
+        """preds: [(name, matcher(atom kind, subject) -> bool)]; expected(assignment dict) -> source of the returned expression"""
+        fcfg = cfg_of(fi)
+        bad = []
+        for combo in _it.product((True, False), repeat=len(preds)):
+            asg = dict(zip([p_[0] for p_ in preds], combo))
+
+            def truth_of(expr, flags, asg=asg):
+                k_, s_, pos_ = q.atom_test(expr)
+                if isinstance(expr, ast.Constant) and isinstance(expr.value, bool):
+                    return expr.value
+                val = None
+                for nm, match in preds:
+                    if match(k_, s_, expr):
+                        val = asg[nm]
+                if val is None and k_ == "truth" and isinstance(s_, str) and s_ in flags:
+                    val = flags[s_]
+                if val is None:
+                    return None
+                return val if pos_ else (not val)
+            ends = kit.follow_decided(fcfg, truth_of)
+            got = sorted(set(q.src(e_.value) if isinstance(e_, ast.Return) and e_.value is not None else type(e_).__name__ for e_ in ends))
+            want = expected(asg)
+            if got != [want]:
+                bad.append((asg, got, want))
+        return bad
+    p0 = q.param_names(ac.node)[0]
+    preds_ac = [("pure", lambda k_, s_, e_: k_ == "call" and s_ == "is_pure_async_fn"),
+                ("asynq", lambda k_, s_, e_: k_ == "call" and s_ == "hasattr" and isinstance(e_, (ast.Call, ast.UnaryOp)) and "'asynq'" in q.src(e_).replace('"', "'")),
+                ("async", lambda k_, s_, e_: k_ == "call" and s_ == "hasattr" and isinstance(e_, (ast.Call, ast.UnaryOp)) and "'async'" in q.src(e_).replace('"', "'"))]
+
+    def want_ac(asg):
+        if asg["pure"]:
+            return "%s(*args, **kwargs)" % p0
+        if asg["asynq"]:
+            return "%s.asynq(*args, **kwargs)" % p0
+        if asg["async"]:
+            return "getattr(%s, 'async')(*args, **kwargs)" % p0
+        return "futures.ConstFuture(%s(*args, **kwargs))" % p0
+    bad_ac = dispatch_table(ac, preds_ac, want_ac)
+    R.check(not bad_ac, P + ".ASYNC-CALL", ac.qualname, R.site(ac),
+            "async_call dispatches pure / .asynq / .async / plain, in this order, each with the same (*args, **kwargs) (8 combinations followed)",
+            "async_call: for %s it returns %s, expected `%s`" % ((bad_ac[0][0], bad_ac[0][1], bad_ac[0][2]) if bad_ac else ("", "", "")))
     # the asyncio twin: every path ends by returning the (awaited) result of a call that received (*args, **kwargs)
     aio = repo.fn("decorators.asyncio_call")
     acfg = cfg_of(aio)
@@ -565,37 +595,37 @@ def run(R, P="C09"):
                 "is_pure_async_fn returns `%s`: the object's own answer, False, or the wrapped function's answer" % (q.src(v) if v is not None else None),
                 "is_pure_async_fn returns `%s`: the first classification of a wrapper disagrees with the memoised one used afterwards (or is not a boolean at all)"
                 % (q.src(v) if v is not None else None))
-    for fq, want in (("decorators.get_async_fn", ["fn.asynq", "getattr(fn, 'async')", "fn", "sync_to_async_fn_wrapper", "None"]),
-                     ("decorators.get_async_or_sync_fn", ["fn.asynq", "getattr(fn, 'async')", "fn"])):
+    # what the two lookup helpers return is decided as a table, like async_call above: .asynq > .async > (pure: the function itself) >
+    # (wrap_if_none: the wrapper) > None / the function
+    for fq in ("decorators.get_async_fn", "decorators.get_async_or_sync_fn"):
         f = repo.fn(fq)
-        rnodes = [n for n in q.scope_nodes(f.node) if isinstance(n, ast.Return) and n.value is not None]
-        rs = [q.src(n.value) for n in rnodes]
-        if len(rnodes) == 1 and isinstance(rnodes[0].value, ast.Name):
-            # single-exit form: the arms assign a result variable
-            vals = [v for k_, v in common.assigned_values(f.node, rnodes[0].value.id) if k_ == "expr"]
-            vals.sort(key=lambda v: (getattr(v, "lineno", 0), getattr(v, "col_offset", 0)))
-            rs = [q.src(v) for v in vals]
-        okr = rs == want
-        if not okr and sorted(rs) == sorted(want) and rs[:3] == want[:3] and len(want) == 5 and len(rnodes) == 5:
-            # the fallback arms in the other order (guard clause `if not wrap_if_none: return None` first): decided on paths - the
-            # wrapper is returned only over the true edge of the flag, None only over its false edge
-            fcfg_ = cfg_of(f)
-            flag = q.param_names(f.node)[1] if len(q.param_names(f.node)) > 1 else None
+        fp = q.param_names(f.node)
+        p0_ = fp[0]
+        full = fq.endswith("get_async_fn")
+        preds_ = [("asynq", lambda k_, s_, e_: k_ == "call" and s_ == "hasattr" and "'asynq'" in q.src(e_).replace('"', "'")),
+                  ("async", lambda k_, s_, e_: k_ == "call" and s_ == "hasattr" and "'async'" in q.src(e_).replace('"', "'"))]
+        if full:
+            flagp = fp[1] if len(fp) > 1 else "wrap_if_none"
+            preds_ += [("pure", lambda k_, s_, e_: k_ == "call" and s_ == "is_pure_async_fn"),
+                       ("wrap", lambda k_, s_, e_, flagp=flagp: k_ == "truth" and s_ == flagp)]
+        wrappers = [n.name for n in ast.walk(f.node) if isinstance(n, ast.FunctionDef) and n is not f.node]
 
-            def flag_edge(want_true):
-                def g(nd):
-                    if nd.kind != "test":
-                        return None
-                    k_, s_, pos_ = q.atom_test(nd.ast)
-                    if k_ == "truth" and s_ == flag:
-                        return ("T" if pos_ else "F") if want_true else ("F" if pos_ else "T")
-                    return None
-                return g
-            wn = [x for r_ in rnodes if q.src(r_.value) == want[3] for x in fcfg_.nodes_for(r_)]
-            nn = [x for r_ in rnodes if q.src(r_.value) == want[4] for x in fcfg_.nodes_for(r_)]
-            okr = bool(flag) and bool(wn) and bool(nn) and kit.path_avoiding_guard(fcfg_, wn, flag_edge(True), N) is None \
-                and kit.path_avoiding_guard(fcfg_, nn, flag_edge(False), N) is None
-        R.check(okr, P + ".CLASSIFY", fq + ":returns", R.site(f), "%s returns %s" % (f.name, want), "%s returns %s" % (f.name, rs))
+        def want_(asg, p0_=p0_, full=full, wrappers=wrappers):
+            if asg["asynq"]:
+                return "%s.asynq" % p0_
+            if asg["async"]:
+                return "getattr(%s, 'async')" % p0_
+            if not full:
+                return p0_
+            if asg["pure"]:
+                return p0_
+            if asg["wrap"]:
+                return wrappers[0] if wrappers else "?"
+            return "None"
+        bad_ = dispatch_table(f, preds_, want_)
+        R.check(not bad_, P + ".CLASSIFY", fq + ":returns", R.site(f),
+                "%s returns .asynq / .async / the function%s in this order of precedence (%d combinations followed)" % (f.name, " / the wrapper / None" if full else "", 2 ** len(preds_)),
+                "%s: for %s it returns %s, expected `%s`" % ((f.name,) + ((bad_[0][0], bad_[0][1], bad_[0][2]) if bad_ else ("", "", ""))))
     # a marker attribute is read only where its presence was established
     def has_marker(attr):
         def g(nd):
